@@ -89,6 +89,8 @@ func pools(quick bool) []poolDef {
 	// (the walk records more skipped alternatives than the tree is deep)
 	ps = append(ps, poolDef{name: "overlap", patterns: []string{"/a", "/a/b", "/a/b/c", "/{p0}/b", "/a/{p1}/c", "/a/b/c/d"}, paths: gen.Paths([]string{"a", "b", "c", "z"}, 4), hosts: []string{""}, k: 2,
 		always: []string{"/{p0}", "/*{c0}", "/a/{p1}", "/a/*{c1}", "/a/b/{p2}", "/a/b/*{c2}"}})
+	// dots: request paths with '.' and '..' segments captured by wildcards (not canonical, yet routed as they are)
+	ps = append(ps, poolDef{name: "dots", patterns: []string{"/{p0}/{p1}/", "/*{c0}/", "/a/{p1}/", "/{p0}/a", "/a/*{c1}/b/", "/{p0}/{p1}"}, paths: gen.Paths([]string{"a", ".", "..", "b"}, 3), hosts: []string{""}, k: 2})
 	return ps
 }
 
